@@ -145,11 +145,11 @@ def _rewrite_trr_with_vf(fn, tr, vf, seed):
                   np.arange(n, dtype=np.int32), box, np.zeros(n, dtype=np.float32), **extra)
 
 
-def _file(fmt, nf, na, cell, seed, idx=0, rows=None, stored=False, trr_vf=None, dcd_fixed=False):
+def _file(fmt, nf, na, cell, seed, idx=0, rows=None, stored=False, trr_vf=None, dcd_fixed=False, dcd_nset=None):
     """saved test file + its full load, cached per process"""
     if stored:
         return _stored(fmt)
-    key = (fmt, nf, na, cell, seed, idx, rows, trr_vf, dcd_fixed)
+    key = (fmt, nf, na, cell, seed, idx, rows, trr_vf, dcd_fixed, dcd_nset)
     if key in _CACHE:
         return _CACHE[key][1:]
     base = "/dev/shm" if os.access("/dev/shm", os.W_OK) else os.path.join(files.VERIF, ".scratch")
@@ -168,6 +168,12 @@ def _file(fmt, nf, na, cell, seed, idx=0, rows=None, stored=False, trr_vf=None, 
         tr.xyz[1:, fixed] = tr.xyz[0, fixed]
         free = np.setdiff1d(np.arange(na), fixed)
         files.write_dcd_fixed_atoms(fn, tr.xyz, free, None if tr.unitcell_lengths is None else (tr.unitcell_lengths, tr.unitcell_angles))
+    if dcd_nset is not None and fmt == "dcd":
+        # the frame-count field of the header (int32 at byte 8) as a program that was killed, or that appended frames without
+        # updating it, leaves it: 0 or a stale smaller number; the frames themselves are all there
+        with open(fn, "r+b") as fh_:
+            fh_.seek(8)
+            fh_.write(np.array([0 if dcd_nset == "zero" else max(nf // 2, 1) if nf > 1 else 0], dtype="<i4").tobytes())
     if trr_vf:
         plain_full = files.load(fn, fmt, tr.topology)
         _rewrite_trr_with_vf(fn, tr, trr_vf, seed + idx)
@@ -212,6 +218,8 @@ def strategy(draw, tier="quick"):
         case["cell"] = "tiny"          # density of the whole file 1000 / nm^3 < n / V: the CRYST1 record counts as a dummy
     if fmt == "dcd" and na >= 2 and cell != "tric" and cell != "vary" and draw(st.integers(0, 2)) == 0:
         case["dcd_fixed"] = draw(st.sampled_from(["half", "most", "one"]))       # a DCD with fixed atoms (CHARMM / NAMD): later frames store the free atoms only
+    if fmt == "dcd" and draw(st.integers(0, 3)) == 0:
+        case["dcd_nset"] = draw(st.sampled_from(["zero", "stale"]))     # header frame count never updated (killed writer)
     if fmt == "trr" and draw(st.booleans()):
         case["trr_vf"] = draw(st.sampled_from(["v", "f", "vf"]))       # a TRR file as GROMACS writes it with nstvout / nstfout > 0
     if fmt in ("h5", "xtc", "trr", "dcd", "nc", "netcdf", "xyz", "mdcrd", "lammpstrj", "gro") and draw(st.integers(0, 11)) == 0:
@@ -330,7 +338,7 @@ def _run_case(case):
     _trim_cache()
     viol, labels = [], ["fmt:" + case["fmt"], "op:" + case["op"]] + list(case.get("excluded", []))
     fmt, nf, na = case["fmt"], case["nf"], case["na"]
-    fn, tr, full = _file(fmt, nf, na, case["cell"], case["seed"], rows=case.get("rows"), stored=case.get("stored", False), trr_vf=case.get("trr_vf"), dcd_fixed=case.get("dcd_fixed", False))
+    fn, tr, full = _file(fmt, nf, na, case["cell"], case["seed"], rows=case.get("rows"), stored=case.get("stored", False), trr_vf=case.get("trr_vf"), dcd_fixed=case.get("dcd_fixed", False), dcd_nset=case.get("dcd_nset"))
     if case.get("long"):
         labels.append("long-file:%d" % case["nf"])
     if case.get("stored"):
@@ -381,7 +389,7 @@ def _run_case(case):
                 k = case["k"]
                 fns, fulls, fulls_all = [], [], []
                 for j in range(k):
-                    f_j, _t, full_j = _file(fmt, nf, na, case["cell"], case["seed"], idx=j, rows=case.get("rows"), stored=case.get("stored", False), trr_vf=case.get("trr_vf"), dcd_fixed=case.get("dcd_fixed", False))
+                    f_j, _t, full_j = _file(fmt, nf, na, case["cell"], case["seed"], idx=j, rows=case.get("rows"), stored=case.get("stored", False), trr_vf=case.get("trr_vf"), dcd_fixed=case.get("dcd_fixed", False), dcd_nset=case.get("dcd_nset"))
                     fns.append(f_j)
                     fulls.append(full_j[::stride])
                     fulls_all.append(full_j)
